@@ -125,7 +125,11 @@ def run_impl(c):
     if c.get('sub'):
         # the property text: "given by name or position" - every spelling of the same two columns is the same query
         sp = {}
+        mine = c.get('refs')
         for refs in SPELLINGS:
+            if refs == mine:    # already executed above
+                sp['/'.join(refs)] = [out['desc'], out['rows']] if 'desc' in out else ['raised', out['pivot_error']]
+                continue
             try:
                 cur = conn.execute(base_statement(c) + pivot_clause(c, refs))
                 sp['/'.join(refs)] = [[(d.name, d.datatype.__name__) for d in cur.description], values.canon_rows(cur.fetchall())]
@@ -344,7 +348,7 @@ def invalid_references():
 def run(tier, rng):
     n = 1200 if tier == 'quick' else 15000
     cases = [gen_case(rng) for _ in range(n)]
-    nsub = 400 if tier == 'quick' else 4000
+    nsub = 300 if tier == 'quick' else 4000
     cases += [gen_case(rng, sub=True) for _ in range(nsub)]
     ios, models = evaluate(cases)
     violations, seen = [], set()
